@@ -145,9 +145,16 @@ class QuicConnectionProtocol(asyncio.DatagramProtocol):
     async def wait_connected(self) -> None:
         """
         Wait for the TLS handshake to complete.
+
+        If the connection was closed before the handshake completed a
+        :class:`ConnectionError` is raised.
         """
         assert self._connected_waiter is None, "already awaiting connected"
         if not self._connected:
+            if self._closed.is_set():
+                # the connection terminated without completing the handshake,
+                # nothing would ever complete a new waiter
+                raise ConnectionError
             self._connected_waiter = self._loop.create_future()
             await asyncio.shield(self._connected_waiter)
 
